@@ -26,7 +26,7 @@ ASSUMPTIONS = ["symbolic links inside experiment outputs are part of the tree (r
                "every recorded version has its directory in the source project (C06/C12 cover the other cases)"]
 ESSENTIAL = ["latest", "task_closure_with_nonarchivable_between", "diamond_below_task", "nested_pkg", "name_leading_dash_root_pkg",
              "undefined_task_rows", "empty_output_dir", "symlink_in_output", "equal_ts_across_tasks", "null_commit", "dirty_flag", "empty_selection",
-             "out_dir", "out_file", "restore_into_cleaned"]
+             "out_dir", "out_file", "out_relative_name_with_colon", "restore_into_cleaned"]
 TECHNIQUE = "property-based round-trip testing (Hypothesis): archive -> restore with real tar; model selection + tree snapshots as oracle"
 LEVEL_TEXT = "Randomised round-trip search over index contents, output trees and flags; exact equality of rows and trees in both projects."
 LEVEL_NOTE = "Trusted: the selection model in this file; vf/trees.py."
@@ -86,7 +86,7 @@ def _case(draw, tier):
     g["rows"] = rows
     g["latest"] = draw(st.booleans())
     g["task_arg"] = task_arg
-    g["out"] = draw(st.sampled_from([None, None, "dir", "file"]))
+    g["out"] = draw(st.sampled_from([None, None, "dir", "file", "rel_colon"]))
     g["restore_into"] = draw(st.sampled_from(["fresh", "fresh", "cleaned"]))
     return g
 
@@ -186,6 +186,11 @@ def _run(case, src, dst, aux):
         out_path = os.path.join(aux, "my archive.tar.gz")
         argv += ["-o", out_path]
         labels.add("out_file")
+    elif case["out"] == "rel_colon":
+        # a plain relative file name such as $(date -Iseconds).tar.gz
+        out_path = os.path.join(src, "2026-10-01T12:30.tar.gz")
+        argv += ["-o", "2026-10-01T12:30.tar.gz"]
+        labels.add("out_relative_name_with_colon")
     if case["task_arg"] is not None:
         argv.append(ids[case["task_arg"]])
         ta = case["task_arg"]
@@ -262,6 +267,9 @@ def _run(case, src, dst, aux):
     else:
         projgen.write_project(dst, case)
         target, archive = dst, out_path
+    if case["out"] == "rel_colon":
+        shutil.copy(archive, os.path.join(target, "backup:v1.tar.gz"))
+        archive = "backup:v1.tar.gz"
     res2 = run_cond(target, ["restore", archive], timeout=180)
     err2 = res2["stderr"].decode("utf-8", "replace")
     if res2["status"] != 0 or res2.get("uncaught"):
